@@ -74,8 +74,31 @@ def flow(root, max_depth=10):
     # innermost first for nested calls on the same line is not needed for our event kinds
     return cs
 
+  def _neg_path(suffix):
+    """condition atom(s) saying that the path `suffix` (list of (text, polarity)) was NOT taken"""
+    suffix = [a for a in suffix if a[0].strip() not in ("True",) or not a[1]]
+    if len(suffix) == 1:
+      return (suffix[0][0], not suffix[0][1])
+    lits = [f"({t})" if p else f"(not ({t}))" for t, p in suffix]
+    return (" and ".join(lits), False)
+
   def visit_body(stmts, fi, env, conds, depth, chain):
+    """-> list of escape paths (full condition stacks under which this body returns / raises early)"""
     conds = list(conds)
+    base = len(conds)
+    escapes = []
+
+    def after(sub_escapes, prefix_len):
+      # the statements after a compound statement run only on the paths that did not leave the function
+      for esc in sub_escapes:
+        suffix = list(esc[prefix_len:])
+        if any(t.startswith("loop:") for t, _ in suffix):
+          continue  # left from inside a loop body: not tracked (path-insensitive there)
+        if not suffix:
+          continue
+        conds.append(_neg_path(suffix))
+        escapes.append(esc)
+
     for s in stmts:
       if isinstance(s, (ast.FunctionDef, ast.ClassDef, ast.Import, ast.ImportFrom, ast.Pass)):
         continue
@@ -83,30 +106,30 @@ def flow(root, max_depth=10):
         c = _subst_expr(s.test, env)
         handle_expr(s.test, fi, env, conds, depth, chain)
         env_t, env_e = dict(env), dict(env)
-        visit_body(s.body, fi, env_t, conds + [(c, True)], depth, chain)
-        visit_body(s.orelse, fi, env_e, conds + [(c, False)], depth, chain)
+        n0 = len(conds)
+        esc_t = visit_body(s.body, fi, env_t, conds + [(c, True)], depth, chain)
+        esc_e = visit_body(s.orelse, fi, env_e, conds + [(c, False)], depth, chain)
         # aliases assigned in only one branch are dropped (unknown afterwards)
         for k in set(env_t) | set(env_e):
           if env_t.get(k) == env_e.get(k) and k in env_t:
             env[k] = env_t[k]
           elif k in env and (env_t.get(k) != env.get(k) or env_e.get(k) != env.get(k)):
             env.pop(k, None)
-        if _terminates(s.body) and not _terminates(s.orelse):
-          conds.append((c, False))
-        elif _terminates(s.orelse) and not _terminates(s.body) and s.orelse:
-          conds.append((c, True))
+        after(esc_t + esc_e, n0)
         continue
       if isinstance(s, (ast.For, ast.While)):
         t = _subst_expr(s.iter if isinstance(s, ast.For) else s.test, env)
         visit_body(s.body, fi, dict(env), conds + [("loop:" + t, True)], depth, chain)
         continue
       if isinstance(s, ast.With):
-        visit_body(s.body, fi, env, conds, depth, chain)
+        n0 = len(conds)
+        after(visit_body(s.body, fi, env, conds, depth, chain), n0)
         continue
       if isinstance(s, (ast.Return, ast.Raise)):
         if isinstance(s, ast.Return) and s.value is not None:
           handle_expr(s.value, fi, env, conds, depth, chain)
-        return
+        escapes.append(tuple(conds))
+        return escapes
       if isinstance(s, ast.Assign) and len(s.targets) == 1 and isinstance(s.targets[0], ast.Name):
         handle_expr(s.value, fi, env, conds, depth, chain, assign_to=s.targets[0].id)
         v = s.value
@@ -118,6 +141,7 @@ def flow(root, max_depth=10):
           env[s.targets[0].id] = txt
         continue
       handle_expr(s, fi, env, conds, depth, chain)
+    return escapes
 
   def handle_expr(node, fi, env, conds, depth, chain, assign_to=None):
     for c in calls_in_order(node):
